@@ -152,8 +152,17 @@ func c13(e *Env) {
 	found4 := false
 	for _, n := range g.Select(isMkdir) {
 		s := e.xargSym(n, 0)
-		str := s.String()
-		if !strings.Contains(str, fnTempDir+"($t)+\"/\"+") || !(strings.Contains(str, "(*FileIP).TempDir(") || strings.Contains(str, "Dir("+fnTempPath)) {
+		match := false
+		for _, alt := range s.Alts(8) {
+			fl := alt.Flat()
+			if len(fl) >= 3 && isTempDirRoot(fl[0]) && fl[1].Op == "lit" && strings.HasPrefix(fl[1].Lit, "/") {
+				rest := fl[2].String()
+				if strings.Contains(rest, "(*FileIP).TempDir(") || strings.Contains(rest, "Dir("+fnTempPath) {
+					match = true
+				}
+			}
+		}
+		if !match {
 			continue
 		}
 		found4 = true
